@@ -600,6 +600,14 @@ static void SplitExt(Double Inp, LongInt* Expo, LongWord* Mant) {
     *Expo -= 0x3ff;
     if (Sign) {
         *Mant = (0xffffffff - *Mant) + 1;
+
+        /* -1.0 * 2^n has no two's complement mantissa -1.0:
+           it is stored as -2.0 * 2^(n-1) */
+
+        if (*Mant == 0x80000000ul) {
+            *Mant = 0;
+            (*Expo)--;
+        }
     }
     *Mant = (*Mant) ^ 0x80000000;
 }
